@@ -24,7 +24,7 @@ CHECKS = {
    tech="deterministic simulation: adversarial transport injecting forged requests into the in-process server router, state-unchanged oracle"),
 
  "C13": dict(cat="fault_enumeration", design="DESIGN.md section 6 C13",
-   text="For seeded histories and each target operation a twin child process traces the N mutating file-system calls of the operation; for every crash point k<=N (and tear offsets of writes) a crash child runs the same operation on a byte-identical copy and is killed with _exit inside the k-th interposed libc call after j bytes; the orchestrator then opens the crashed directory the normal way: sign-in must succeed, every event log must equal its before- or after-state, every folder must equal the replay of its log and its persisted vault. Both backends (SQLite's own journal/WAL writes are crash points too).",
+   text="For seeded histories and each target operation a twin child process traces the N mutating file-system calls of the operation; for every crash point k<=N (and tear offsets of writes) a crash child runs the same operation on a byte-identical copy and is killed with _exit inside the k-th interposed libc call after j bytes; the orchestrator then opens the crashed directory the normal way: sign-in must succeed, every event log must equal its before- or after-state, every folder must equal the replay of its log and its persisted vault. Both backends (SQLite's own journal/WAL writes are crash points too). Targets: secret and folder edits, compaction, folder password change and, in a third of the runs, a force merge (replace-all of a folder log + vault rewrite). Snapshots of the data directory are taken through SQLite (VACUUM INTO) so that twin and crash children start from the same closed database.",
    note="Process crash, not power loss. The unchanged tree violates the property broadly (no atomic commit across vault and log, in-place rewrites); the root causes are listed as known findings by (backend, class) pattern, so the check reports classes that do not occur today (e.g. emptied / missing / unreadable logs, sqlite accounts that no longer open). Merge application and server-side storage are not crashed yet.",
    tech="deterministic simulation: crash-point enumeration by libc interposition (_exit at the k-th mutating call, torn writes), twin run oracle"),
 
@@ -46,11 +46,11 @@ CHECKS = {
    note="Replay-until-commit is checked at the head commit only (earlier commits are covered indirectly because the check runs after every step). Known findings listed in known_findings.json are reported as KNOWN-FINDING. Sampling only.",
    tech="deterministic simulation: multi-device histories, model-free three-way equality oracle after every step"),
  "C04": dict(cat="exploration", design="DESIGN.md section 6 C04",
-   text="2-3 devices + real server behind the in-process router; seeded histories of edits (all log types), offline spans, syncs in any order, overlapping syncs under the request scheduler, lost requests/responses, clock skew and ties; then quiescence rounds. Oracles: a sync that reports success leaves the device's per-log status equal to the server's; within 2n+2 rounds every replica reports the same status and serves the same decrypted folders. Violations carry a mechanically derived root-cause class.",
+   text="2-3 devices + real server behind the in-process router; seeded histories of edits (all log types), offline spans, syncs in any order, overlapping syncs under the request scheduler, lost requests/responses, clock skew and ties, and in a quarter of the runs a divergence of the files event log (external files created on two devices while apart); then quiescence rounds. Oracles: a sync that reports success leaves the device's per-log status equal to the server's; within 2n+2 rounds every replica reports the same status and serves the same decrypted folders. Violations carry a mechanically derived root-cause class.",
    note="Liveness is measured in rounds of simulated syncs, never wall time. Several genuine defects remain and are listed as known findings (identical events, device-log divergence, concurrent history rewrites, multi-phase success); their classes are masked, all others are reported. Sampling only.",
    tech="deterministic simulation: seeded multi-device histories, network fault injection, bounded-round convergence oracle"),
  "C05": dict(cat="exploration", design="DESIGN.md section 6 C05",
-   text="Same worlds without history rewrites: the harness records every record each device committed locally; at convergence every log on every replica must contain, as a multiset of commit hashes, the shared prefix plus the max-union of the devices' own commits (identical independent events count once), nothing foreign, shared prefix untouched.",
+   text="Same worlds without history rewrites (incl. the files-log divergence of C04): the harness records every record each device committed locally; at convergence every log on every replica must contain, as a multiset of commit hashes, the shared prefix plus the max-union of the devices' own commits (identical independent events count once), nothing foreign, shared prefix untouched.",
    note="Order inside the merged region is not checked beyond prefix preservation; the semantic last-writer-wins corollary is covered through C04's content equality and C02. Sampling only.",
    tech="deterministic simulation: recorded commit history vs converged logs (multiset / prefix oracle)"),
  "C08": dict(cat="exploration", design="DESIGN.md section 6 C08",
@@ -62,7 +62,7 @@ CHECKS = {
    note="Interleaving granularity is one request (the shipped handler holds the per-account write lock for a whole request). Distinct delivery sequences are counted as cases. Sampling, not exhaustive enumeration.",
    tech="deterministic simulation: seeded request-level scheduler over concurrent syncs, monotonicity invariant after each delivery"),
  "C20": dict(cat="exploration", design="DESIGN.md section 6 C20",
-   text="After every step on every device of the multi-device worlds (local edits, moves, archive, folder add/remove, merges replaying create/update/delete of the same ids, restarts): search index documents == one per live secret with current label/tags/kind/favourite, counters == recount, label queries return exactly live matches.",
+   text="After every step on every device of the multi-device worlds (local edits, moves, archive, folder add/remove, merges replaying create/update/delete of the same ids, the whole life cycle of a folder seen only through merges, restarts): search index documents == one per live secret with current label/tags/kind/favourite, counters == recount, label queries return exactly live matches.",
    note="The recount is computed from what the account serves; archived secrets are excluded from kind counters by design. Sampling only.",
    tech="deterministic simulation: incremental index vs recount after every step"),
  "C01": dict(cat="exploration", design="DESIGN.md section 6 C01",
@@ -92,7 +92,7 @@ CHECKS = {
    tech="deterministic simulation: seeded account histories, export/import round trip against the sequential model, fault injection on archive entries with a directory-tree oracle"),
 
  "C19": dict(cat="exploration", design="DESIGN.md section 6 C19",
-   text="The multi-device world (2-3 devices + real server) starts entirely on the file-system backend; at seeded positions of seeded histories (edits of all kinds, folders with flags / descriptions, deleted folders, trusted devices, external attachments, offline spans, syncs) a device signs out, upgrade_accounts runs as a dry run (the data directory must stay byte-for-byte identical) and for real (keep_stale_files drawn), the device reopens on the database backend and the history continues with the ordinary sync traffic; in a third of the runs the stopped server's storage is upgraded (server layout) and restarted on sqlite. At each upgrade: SyncStatus per log (root, length) before == after; served account == model == replay(log) == persisted vault; trusted devices and external blobs unchanged; a device that equalled its server before the upgrade syncs successfully afterwards and still equals it.",
+   text="The multi-device world (2-3 devices + real server) starts entirely on the file-system backend; at seeded positions of seeded histories (edits of all kinds, folders with flags / descriptions, deleted folders, trusted devices, external attachments, offline spans, syncs) a device signs out, upgrade_accounts runs as a dry run (the data directory must stay byte-for-byte identical) and for real (keep_stale_files drawn), the device reopens on the database backend and the history continues with the ordinary sync traffic; in a third of the runs the stopped server's storage is upgraded (server layout) and restarted on sqlite. At each upgrade: SyncStatus per log (root, length) before == after; the upgraded account serves what a fresh file-system account over the same storage served right before; replay(log) == served == persisted vault unless the file-system account already disagreed; trusted devices and external blobs unchanged; a device that equalled its server before the upgrade syncs successfully afterwards and still equals it.",
    note="One account per data directory (several accounts per directory are not generated); preferences and the server-origin list are not populated by the harness, so their preservation is not observed; 'same history on either backend gives the same account' is decided by C01/C06 (both backends against one model). Sampling only.",
    tech="deterministic simulation: multi-device world with upgrade steps at seeded positions (synced / unsynced state, client and server layouts), before/after oracles and continued sync traffic"),
 
